@@ -56,12 +56,30 @@ CHECKS = {
   note="Point of no return = host's successful broadcast; a final message lost after it counts as formed-but-unacknowledged. testutil EphemeralContractor/EphemeralWalletStore stand in for host stores; in-memory transport; one fault per attempt. Open finding C16-record-before-broadcast; three findings repaired (fix commits 6bbeb19, 2d8c5ce, 1b6d022).",
   technique='TLA+ spec with named deviations + TLC exhaustive + replay of the full descriptor cover into real client/server/wallet code + TLC trace validation',
   ref='5 C16'),
+ "C06": dict(
+  level='model_checking',
+  text='WalletLedger.tla folds, per block of fork trees of REAL blocks, what the block creates, spends and means as events for the wallet address (extracted with core only) exactly as revertChainUpdate/applyChainUpdate plus the store do, under every tip movement and every chunking (chunk sizes {1,2,3,5,7}, incl. chunks ending on a revert); TLC checks PosExact, UtxoExact, EventsExact, FlowBalance and liveness (Settles) and exhibits the two (repaired) event-keying deviations as design-level counterexamples. The full edge cover is replayed on a real Manager + SingleAddressWallet.UpdateChainState over EphemeralWalletStore with the complete wallet state compared and audited against the independent ledger (every proof verified, Balance() partition); randomised C02-style histories (20-120 blocks, the wallet address rotating through miner, payee, spender, v1/v2 contract party, siafund owner, claim address only, foundation address) are validated by TLC call by call.',
+  note="Trusted: core, TLC, Go runtime. TLC sees currency values modulo 65521; the exact big-integer equations are checked in Go. Leg M/R trees <= 15 blocks x 3 personas x 3 regimes. Unique v1 window ends (expiry order is C02's open finding). Pool-dependent Balance parts compared only when the pool is empty. Findings C06-claim-event and C06-renewal-payee repaired (f91b530, 9a54029).",
+  technique='TLA+ spec WalletLedger.tla + TLC exhaustive on materialised role trees; edge-cover replay with projection and property audits; TLC trace validation of randomised real executions; deviation probes',
+  ref='5 C06 / 11.4'),
+ "C07": dict(
+  level='model_checking',
+  text='TLC exhausts WalletFund.tla (permissive selection, exact success/failure) on small instances - <= 3 initial outputs, 2 requests, <= 2 ticks, three option sets incl. zero thresholds, every interleaving and every admissible selection - for Disjoint, Conservation, LiveValid, PoolValid, NoOrphanLocks, ViewsAgree, Eligible, FailReservesNothing, ReservationEnds. The edge cover of code-policy schedule graphs (quick: sample of 3 graphs; thorough: full cover of 6 graphs, 1.7*10^5 transitions) is replayed on the real SingleAddressWallet over a real chain.Manager with reply and all five views compared per step; every call of the replayed runs, of random sequential sessions and of concurrent (-race in thorough) sessions with 4-8 goroutines is validated by TLC against WalletFundTrace.tla, concurrent calls ordered by a stamp taken under sw.mu through the store wrapper.',
+  note='Hastings-scale values; reservation periods realised with 400 ms units and measured windows (a run that misses its window is repeated, never judged); chain updates atomic w.r.t. wallet calls; cross-version unconfirmed parents modelled as rejected until confirmed; restart = fresh Manager + reload of broadcast sets. Four findings repaired (edcc4bc, 1870d4f, dfbacc0, 3b90962).',
+  technique='TLA+ spec + TLC exhaustive; edge-cover replay with a policy refinement; TLC trace validation incl. exactly ordered concurrent traces; named-deviation self-tests',
+  ref='5 C07 / 11.4'),
+ "C10": dict(
+  level='model_checking',
+  text='TLC enumerates the complete fault space of Renter.tla (every catalogue corruption - flip, truncate, extend, swap from another exchange, other range/root, wrong count, re-sign - of every field of every host message of 11 renter RPCs plus 2 unservable input classes; singles quick, pairs/triples and 50 random byte mutations per message thorough) and checks the acceptance rule SuccessImpliesBound / HonestSucceeds against an abstract client; every enumerated plan is executed against the real client functions talking to a real honest rhp4.Server through a decoding, re-signing man in the middle holding the host key, with `bound` evaluated from harness-owned ground truth (sector bytes, roots, price table, keys); every recorded outcome is TLC-validated against RenterTrace.tla.',
+  note="Trusted: core's Merkle/encoding/ed25519, TLC; hashes and signatures treated as ideal. RPCLatestRevision/RPCAccountBalance are informational (unauthenticated by design). In-memory transport. Three findings repaired (a430e65, 60c450d, ff651f4).",
+  technique='TLA+ fault-space enumeration + exhaustive MITM replay into the real client/server + TLC trace validation',
+  ref='5 C10 / 11.4'),
 }
 
 NOT_APPLICABLE = {
 }
 
-HOOK_COMMITS = ["cdd4f9a"]
+HOOK_COMMITS = ["cdd4f9a", "e9c8015"]
 
 
 def main():
